@@ -129,3 +129,62 @@ Proof.
   - apply andb_true_iff in Hi as [Hie Hir]. destruct (step s e) as [s1|] eqn:Hs; try discriminate.
     pose proof (measure_decreases _ _ _ Hie Hs). specialize (IH _ _ Hir Hr). lia.
 Qed.
+
+(* ------------------------------------------------------------------ conservation *)
+(** Weighted count of the requests at each place; taking [f] = indicator of one request turns
+    the equations below into "each request is in exactly one place". *)
+Definition optw (f : msg -> nat) (o : option msg) : nat := match o with Some m => f m | None => 0 end.
+Definition subw (f : msg -> nat) (sb : sub) : nat := wsum f (pre sb) + wsum f (post sb) + optw f (inh sb).
+Definition wrkw (f : msg -> nat) (w : wst) : nat := match w with WHave m | WProc m => f m | _ => 0 end.
+Definition procw (f : msg -> nat) (w : wst) : nat := match w with WProc m => f m | _ => 0 end.
+
+Definition Cons (s : st) : Prop :=
+  (forall f, wsum f (published (g s)) = wsum f (wire s) + wsum f (dropped (g s)) + wsum f (accepted (g s)))
+  /\ (forall f, wsum f (accepted (g s)) =
+        wsum f (lost (g s)) + wsum (subw f) (subs s) + wsum f (noreply (g s)) + wsum f (workc s)
+        + wsum (wrkw f) (workers s) + wsum f (finished (g s)))
+  /\ (forall f, wsum f (startedl (g s)) = wsum (procw f) (workers s) + wsum f (finished (g s)))
+  /\ replied (g s) = map mid (filter has_out (finished (g s))).
+
+Lemma wsum_map_same {A} (f : A -> nat) (h : A -> A) l :
+  (forall a, f (h a) = f a) -> wsum f (map h l) = wsum f l.
+Proof. intros Hh. induction l; cbn; auto. Qed.
+
+Ltac use_upd_gen :=
+  repeat match goal with
+  | |- context[wsum ?F (upd ?l ?i ?b)] =>
+    match goal with H : nth_error l i = Some _ |- _ =>
+      let HW := fresh "HW" in
+      pose proof (wsum_upd F _ _ _ b H) as HW;
+      let X := fresh "X" in let Y := fresh "Y" in
+      set (X := wsum F (upd l i b)) in *; set (Y := wsum F l) in *;
+      cbn in HW; unfold subw, wrkw, procw, optw in HW; cbn in HW; rewrite ?wsum_app in HW; cbn in HW;
+      rw_in HW; cbn in HW; clearbody X Y
+    end
+  end.
+
+Lemma wsum_repeat0 {A} (f : A -> nat) a n : f a = 0 -> wsum f (repeat a n) = 0.
+Proof. intros H. induction n; cbn; auto. rewrite H, IHn. auto. Qed.
+
+Lemma Cons_init n w q : Cons (init n w q).
+Proof.
+  unfold Cons, init; cbn. split; [|split; [|split]]; try reflexivity; intros f;
+  rewrite ?wsum_repeat0 by reflexivity; reflexivity.
+Qed.
+
+Lemma Cons_step s e s' : Cons s -> step s e = Some s' -> Cons s'.
+Proof.
+  intros (C1 & C2 & C3 & C4) Hs. unfold step in Hs. destruct (crashed s) eqn:Hcr; try discriminate.
+  destruct e;
+  unfold step_arrive, step_pop, step_drop, step_enq, step_take, step_start, step_done, step_exit,
+         step_drainsub, step_brokerunsub, step_checkdrained, step_barrier in Hs;
+  dmatch; inv_some; idxh; boolh;
+  try match goal with a : wst |- _ => destruct a; try discriminate end;
+  unfold Cons; cbn;
+  (split; [|split; [|split]]);
+  try (intros f; specialize (C1 f); specialize (C2 f); specialize (C3 f));
+  rewrite ?wsum_app; cbn;
+  try (rewrite (wsum_map_same (subw f)) by (intros sb; destruct (registered sb); reflexivity));
+  use_upd_gen; rw_goal; cbn; rewrite ?wsum_app; cbn; try lia; auto.
+  rewrite filter_app, map_app; cbn. destruct (has_out m); cbn; rewrite ?app_nil_r; reflexivity.
+Qed.
